@@ -13,7 +13,7 @@ Init == st = Fresh /\ ok = TRUE
 OKs2 == IF WithFaults THEN {<<TRUE, TRUE>>, <<FALSE, TRUE>>, <<TRUE, FALSE>>} ELSE {<<TRUE, TRUE>>}
 OKs1 == IF WithFaults THEN {<<TRUE>>, <<FALSE>>} ELSE {<<TRUE>>}
 OpSet ==
-    {[op |-> "salloc", s |-> s, clr |-> c, ok |-> k, zero |-> FALSE] : s \in SP, c \in (IF NW >= 1 THEN 0..2 ELSE 0..1), k \in OKs2}
+    {[op |-> "salloc", s |-> s, clr |-> c, ok |-> k, zero |-> FALSE] : s \in SP, c \in (IF NW >= 1 THEN 0..3 ELSE 0..1), k \in OKs2}
     \cup {[op |-> "salloc", s |-> s, clr |-> 0, ok |-> <<TRUE, TRUE>>, zero |-> TRUE] : s \in SP}
     \cup {[op |-> "share", e |-> e, n |-> n] : e \in SP, n \in SP}
     \cup {[op |-> "sswap", a |-> p[1], b |-> p[2]] : p \in {x \in SP \X SP : x[1] <= x[2]}}
